@@ -322,6 +322,15 @@ def containers(b, wide=True, exotic=True):
     return out
 
 
+def rotated(seq, rng):
+    """All elements of seq, cyclically, from a random starting position."""
+    seq = list(seq)
+    if not seq:
+        return seq
+    i = rng.randrange(len(seq))
+    return seq[i:] + seq[:i]
+
+
 def boolish(flag, i):
     """The same truth value as `flag`, every fourth time as the non-bool a caller may well pass for a boolean option (1 / 0 / None)."""
     if i % 4:
